@@ -4,7 +4,7 @@ import "fmt"
 
 // JSON value generators, all driven by the Case chooser.
 
-var genKeys = []string{"a", "b", "c", "name", "port", "x"}
+var genKeys = []string{"a", "b", "c", "name", "port", "x", "type", "key", "id"}
 var genStrs = []string{"s1", "s2", "web", "db", ""}
 
 // GenScalar draws a JSON scalar. Numbers are int64 or non-integral float64,
